@@ -53,9 +53,12 @@ def plan(tier, seed):
     # instances beyond truth tables (12-70 variables), see vf/big.py
     from vf import big
     specs.extend(big.specs(tier, seed, 'C18'))
+    for k in range(2 if tier == 'quick' else 12):
+        specs.append(dict(kind='deep', sub=k,
+                          count=4 if tier == 'quick' else 20, hashseed=k))
     meta = dict(
         rule=RULE,
-        require=['big_histories', 'history_view_checks', 'long_lived_handle_checks',
+        require=['deep_diagrams', 'deep_paths_evaluated', 'big_histories', 'huge_histories', 'history_view_checks', 'long_lived_handle_checks',
                  'dynamic_histories',
                  'gc_freed_nodes', 'traversals', 'descendants_checks', 'nx_graphs',
                  'dot_files', 'dot_roots_evaluated', 'nx_roots_evaluated'],
@@ -441,6 +444,122 @@ def all_(ctx, spec):
                     functions=len(A.tables), root_sets=spec['sets']))
 
 
+def deep(ctx, spec):
+    """Diagrams over hundreds of levels (cube, disjunction, parity over
+    250-600 variables): node sets and sizes against an own (iterative)
+    reachability, pointwise evaluation along single paths through the
+    public views and through the exports."""
+    import dd.autoref as _a
+    import dd.bdd as _b
+    rng = ctx.rng('deep', spec['sub'])
+    for it in range(spec['count']):
+        n = rng.choice((250, 251, 260, 300, 400, 600))
+        names = [f'v{i}' for i in range(n)]
+        ab = _a.BDD()
+        ab.declare(*names)
+        bdd = ab._bdd
+        kind = rng.choice(('cube', 'or', 'parity'))
+        vs = names if rng.random() < 0.5 else \
+            sorted(rng.sample(names, n - rng.randint(1, 20)),
+                   key=names.index)
+        if kind == 'cube':
+            d = {v: rng.random() < 0.7 for v in vs}
+            f = ab.cube(d)
+            value = lambda a, d=d: all(a[v] == b for v, b in d.items())
+        elif kind == 'or':
+            f = ab.false
+            for v in reversed(vs):
+                f = f | ab.var(v)
+            value = lambda a, vs=vs: any(a[v] for v in vs)
+        else:
+            f = ab.false
+            for v in reversed(vs):
+                f = ab.apply('xor', f, ab.var(v))
+            value = lambda a, vs=vs: sum(a[v] for v in vs) % 2 == 1
+        if rng.random() < 0.3:
+            f = ~f
+            pos = value
+            value = lambda a, pos=pos: not pos(a)
+        u = f.node
+        info = dict(kind=kind, variables=n, support=len(vs))
+        reach = monitors.reachable(bdd, [u])
+        ctx.note('deep_levels', n)
+        # with the interpreter's default recursion limit (the shard
+        # processes otherwise run with a much larger one): these depths
+        # are within it
+        import sys
+        limit = sys.getrecursionlimit()
+        sys.setrecursionlimit(1000)
+        try:
+            ok, _ = ctx.guard('views', _deep_views, ctx, ab, bdd, _b, f, u,
+                              reach, value, names, rng, info, case=info)
+        finally:
+            sys.setrecursionlimit(limit)
+        ctx.counters['deep_diagrams'] += 1
+        ctx.case(True, 'deep', kind, n, len(vs), it)
+        del f
+        if not ok:
+            return
+
+
+def _deep_views(ctx, ab, bdd, _b, f, u, reach, value, names, rng, info):
+    d = bdd.descendants([u])
+    if set(d) != reach:
+        raise Violation('descendants', 'wrong-node-set',
+                        dict(info, got=len(d), want=len(reach)))
+    if len(f) != len(reach) or f.dag_size != len(reach):
+        raise Violation('Function.__len__', 'wrong-size',
+                        dict(info, got=len(f), want=len(reach)))
+    if len(ab) != len(bdd._succ):
+        raise Violation('len(bdd)', 'wrong-size', info)
+    g = _b.to_nx(bdd, {u})
+    if set(g.nodes) != reach:
+        raise Violation('to_nx', 'wrong-node-set',
+                        dict(info, got=len(g.nodes), want=len(reach)))
+    fn = f'deep{os.getpid()}.dot'
+    try:
+        ab.dump(fn, [f])
+        text = open(fn).read()
+    finally:
+        if os.path.exists(fn):
+            os.remove(fn)
+    nodes, edges, refs, rows = read_dot(text)
+    if {int(x) for x in nodes} != reach:
+        raise Violation('dump-dot', 'wrong-node-set',
+                        dict(info, got=len(nodes), want=len(reach)))
+    # single paths: through Function.var/low/high/negated, and through
+    # the DOT edges
+    for _ in range(6):
+        a = {v: rng.random() < 0.5 for v in names}
+        if rng.random() < 0.5:
+            a = dict.fromkeys(names, rng.random() < 0.5)
+            a[rng.choice(names)] ^= True
+        want = value(a)
+        h, neg = f, False
+        while h.var is not None:
+            if h.negated:
+                neg = not neg
+                h = ~h
+            h = h.high if a[h.var] else h.low
+        if h.negated:
+            neg = not neg
+        if (not neg) != want:
+            raise Violation('Function.low/high',
+                            'traversal-gives-other-function', info)
+        x, neg = str(abs(u)), u < 0
+        while x in edges:
+            e = edges[x]
+            if a[nodes[x]]:
+                x = e['hi']
+            else:
+                x, c = e['lo']
+                neg = neg != c
+        if (not neg) != want:
+            raise Violation('dump-dot', 'graph-evaluates-to-other-function',
+                            info)
+        ctx.counters['deep_paths_evaluated'] += 1
+
+
 def check_handles(ctx, w, V):
     sp, raw = w.sp, w.raw
     for e in w.pool:
@@ -544,5 +663,7 @@ def run_shard(ctx, spec):
     if spec['kind'] == 'big':
         from vf import big
         return ctx.guard('big', big.run, ctx, spec, case=spec)
+    if spec['kind'] == 'deep':
+        return ctx.guard('deep', deep, ctx, spec, case=spec)
     fn = dict(all=all_, history=history)[spec['kind']]
     ctx.guard(spec['kind'], fn, ctx, spec, case=spec)
